@@ -33,26 +33,31 @@ static inline void ythread_callback_yield_impl(void *arg,
 
 void ABTI_ythread_callback_yield_user_yield(void *arg)
 {
+    ABTI_VERIF_EVENT(30, arg, 0, 0);
     ythread_callback_yield_impl(arg, ABT_POOL_CONTEXT_OP_THREAD_YIELD);
 }
 
 void ABTI_ythread_callback_yield_loop(void *arg)
 {
+    ABTI_VERIF_EVENT(31, arg, 0, 0);
     ythread_callback_yield_impl(arg, ABT_POOL_CONTEXT_OP_THREAD_YIELD_LOOP);
 }
 
 void ABTI_ythread_callback_yield_user_yield_to(void *arg)
 {
+    ABTI_VERIF_EVENT(32, arg, 0, 0);
     ythread_callback_yield_impl(arg, ABT_POOL_CONTEXT_OP_THREAD_YIELD_TO);
 }
 
 void ABTI_ythread_callback_yield_create_to(void *arg)
 {
+    ABTI_VERIF_EVENT(33, arg, 0, 0);
     ythread_callback_yield_impl(arg, ABT_POOL_CONTEXT_OP_THREAD_CREATE_TO);
 }
 
 void ABTI_ythread_callback_yield_revive_to(void *arg)
 {
+    ABTI_VERIF_EVENT(34, arg, 0, 0);
     ythread_callback_yield_impl(arg, ABT_POOL_CONTEXT_OP_THREAD_REVIVE_TO);
 }
 
@@ -60,6 +65,7 @@ void ABTI_ythread_callback_yield_revive_to(void *arg)
  * avoid making a pool empty. */
 void ABTI_ythread_callback_thread_yield_to(void *arg)
 {
+    ABTI_VERIF_EVENT(35, arg, 0, 0);
     ABTI_ythread *p_prev = (ABTI_ythread *)arg;
     /* p_prev->thread.p_pool is loaded before ABTI_pool_add_thread() to keep
      * num_blocked consistent. Otherwise, other threads might pop p_prev
@@ -82,6 +88,7 @@ void ABTI_ythread_callback_thread_yield_to(void *arg)
 
 void ABTI_ythread_callback_resume_yield_to(void *arg)
 {
+    ABTI_VERIF_EVENT(36, arg, 0, 0);
     ABTI_ythread_callback_resume_yield_to_arg *p_arg =
         (ABTI_ythread_callback_resume_yield_to_arg *)arg;
     /* p_arg might point to the stack of the original ULT, so do not
@@ -102,6 +109,7 @@ void ABTI_ythread_callback_resume_yield_to(void *arg)
 
 void ABTI_ythread_callback_suspend(void *arg)
 {
+    ABTI_VERIF_EVENT(37, arg, 0, 0);
     ABTI_ythread *p_prev = (ABTI_ythread *)arg;
     /* Request handling.  p_prev->thread.p_pool might be changed. */
     ABTI_thread_handle_request(&p_prev->thread, ABT_FALSE);
@@ -116,6 +124,7 @@ void ABTI_ythread_callback_suspend(void *arg)
 
 void ABTI_ythread_callback_resume_suspend_to(void *arg)
 {
+    ABTI_VERIF_EVENT(38, arg, 0, 0);
     ABTI_ythread_callback_resume_suspend_to_arg *p_arg =
         (ABTI_ythread_callback_resume_suspend_to_arg *)arg;
     /* p_arg might point to the stack of the original ULT, so do not
@@ -139,6 +148,7 @@ void ABTI_ythread_callback_resume_suspend_to(void *arg)
 
 void ABTI_ythread_callback_exit(void *arg)
 {
+    ABTI_VERIF_EVENT(39, arg, 0, 0);
     /* Terminate this thread. */
     ABTI_ythread *p_prev = (ABTI_ythread *)arg;
     ABTI_thread_terminate(ABTI_global_get_global(),
@@ -147,6 +157,7 @@ void ABTI_ythread_callback_exit(void *arg)
 
 void ABTI_ythread_callback_resume_exit_to(void *arg)
 {
+    ABTI_VERIF_EVENT(40, arg, 0, 0);
     ABTI_ythread_callback_resume_exit_to_arg *p_arg =
         (ABTI_ythread_callback_resume_exit_to_arg *)arg;
     /* p_arg might point to the stack of the original ULT, so do not
@@ -162,6 +173,7 @@ void ABTI_ythread_callback_resume_exit_to(void *arg)
 
 void ABTI_ythread_callback_suspend_unlock(void *arg)
 {
+    ABTI_VERIF_EVENT(41, arg, 0, 0);
     ABTI_ythread_callback_suspend_unlock_arg *p_arg =
         (ABTI_ythread_callback_suspend_unlock_arg *)arg;
     /* p_arg might point to the stack of the original ULT, so do not
@@ -181,6 +193,7 @@ void ABTI_ythread_callback_suspend_unlock(void *arg)
 
 void ABTI_ythread_callback_suspend_join(void *arg)
 {
+    ABTI_VERIF_EVENT(42, arg, 0, 0);
     ABTI_ythread_callback_suspend_join_arg *p_arg =
         (ABTI_ythread_callback_suspend_join_arg *)arg;
     /* p_arg might point to the stack of the original ULT, so do not
@@ -203,6 +216,7 @@ void ABTI_ythread_callback_suspend_join(void *arg)
 
 void ABTI_ythread_callback_suspend_replace_sched(void *arg)
 {
+    ABTI_VERIF_EVENT(43, arg, 0, 0);
     ABTI_ythread_callback_suspend_replace_sched_arg *p_arg =
         (ABTI_ythread_callback_suspend_replace_sched_arg *)arg;
     /* p_arg might point to the stack of the original ULT, so do not
@@ -222,6 +236,7 @@ void ABTI_ythread_callback_suspend_replace_sched(void *arg)
 
 void ABTI_ythread_callback_orphan(void *arg)
 {
+    ABTI_VERIF_EVENT(44, arg, 0, 0);
     /* It's a special operation, so request handling is unnecessary. */
     ABTI_ythread *p_prev = (ABTI_ythread *)arg;
     ABTI_thread_unset_associated_pool(ABTI_global_get_global(),
